@@ -273,11 +273,8 @@ before anything is done (`pack_compresses` is true exactly for the CHK format
 2a, i.e. `chk`).  If the new pack's name is already in the collection
 (`allocate` raises "Pack … already exists") the operation stops after
 `finish()`. -/
-def packOps (chk : Bool) (d : Disk) (v : View) (hint : Option (List Nat)) (optimal clean : Bool)
+def packOpsSel (chk : Bool) (d : Disk) (v : View) (s : List Nat) (optimal clean : Bool)
     (tmp1 new1 : Nat) : List Op :=
-  let s := match hint with
-    | none => v.names
-    | some h => v.names.filter (fun n => h.contains n)
   if !chk && v.names.length ≤ 1 then []
   else if !s.isEmpty && !optimal && v.names.contains new1 then newPackOps chk (upTmp tmp1 true) new1
   else
@@ -287,5 +284,14 @@ def packOps (chk : Bool) (d : Disk) (v : View) (hint : Option (List Nat)) (optim
       else newPackOps chk (upTmp tmp1 true) new1
         ++ saveOps chk d ⟨v.names.filter (fun n => !s.contains n) ++ [new1], v.atLoad⟩ (some s)
     body ++ (if clean then clearOps (run d body) [] else [])
+
+/-- the packs `_try_pack_operations(hint)` selects -/
+def hintSel (v : View) : Option (List Nat) → List Nat
+  | none => v.names
+  | some h => v.names.filter (fun n => h.contains n)
+
+def packOps (chk : Bool) (d : Disk) (v : View) (hint : Option (List Nat)) (optimal clean : Bool)
+    (tmp1 new1 : Nat) : List Op :=
+  packOpsSel chk d v (hintSel v hint) optimal clean tmp1 new1
 
 end BreezyVerif.C04
